@@ -44,8 +44,6 @@ Proof.
     unfold step_fn; rewrite Hn.
   - destruct e as [| | | | | | o | o | | | | | | |]; try discriminate Hseq;
       try (intros [= <-]; now left).
-    + destruct o; [discriminate Hseq|]. intros [= <-]; now left.
-    + destruct o; [discriminate Hseq|]. intros [= <-]; now left.
     + destruct ct as [|l ct']; [intros [= <-]; now left|].
       destruct (jump_to es l sc (l :: ct')); [|discriminate]. intros [= <-]; now left.
   - rewrite (jump_to_some _ _ _ _ _ Hl). intros [= <-]; now left.
@@ -66,7 +64,7 @@ Lemma fails_detected es c x : fails es c x -> exists x', step_fn es c = Fail x'.
 Proof.
   intros Hf. destruct Hf as
     [p sc ct l c Hn Hl | p sc ct u ls l Hn Hin Hl | p sc ct l Hn Hl | p sc ct l Hn Hl
-    | p sc ct l Hn Hl | p sc ct l Hn Hl | p sc Hn | p sc ct n Hn Hm | p sc ct n Hn Hm
+    | p sc ct l Hn Hl | p sc ct l Hn Hl | p sc ct Hn | p sc ct Hn | p sc Hn | p sc ct n Hn Hm | p sc ct n Hn Hm
     | p sc ct Hn Hsc | p sc ct w Hn]; unfold step_fn; rewrite Hn.
   - rewrite (jump_to_none _ _ _ _ Hl). eauto.
   - eapply fork_targets_fail; eauto.
@@ -74,6 +72,8 @@ Proof.
   - rewrite (jump_to_none _ _ _ _ Hl). eauto.
   - rewrite (jump_to_none _ _ _ _ Hl). eauto.
   - rewrite (jump_to_none _ _ _ _ Hl). eauto.
+  - eauto.
+  - eauto.
   - eauto.
   - rewrite Hm. eauto.
   - rewrite Hm. eauto.
@@ -210,6 +210,14 @@ Proof.
   destruct e; try discriminate. apply String.eqb_eq in He. subst. eauto.
 Qed.
 
+Theorem loop_exits_okb_sound es :
+  loop_exits_okb es = true ->
+  forall i, nth_error es i <> Some (EBreak None) /\ nth_error es i <> Some (EContinue None).
+Proof.
+  unfold loop_exits_okb. rewrite forallb_forall. intros H i.
+  split; intros Hn; specialize (H _ (nth_error_In _ _ Hn)); discriminate.
+Qed.
+
 (* the statement of C12 for Colang 2.x, per flow, for a flow the checker accepts *)
 Definition closed_v2 (es : list elem) : Prop :=
   (* along every path of a head from the flow start: no label lookup fails, no scope is
@@ -223,13 +231,16 @@ Definition closed_v2 (es : list elem) : Prop :=
   (* only primitives remain *)
   (forall i w, nth_error es i <> Some (EComposite w)) /\
   (* every MergeHeads belongs to a ForkHead of this flow *)
-  (forall i u, nth_error es i = Some (EMerge u) -> exists ls, In (EFork u ls) es).
+  (forall i u, nth_error es i = Some (EMerge u) -> exists ls, In (EFork u ls) es) /\
+  (* every loop exit / loop head jump (reachable or not) names its target *)
+  (forall i, nth_error es i <> Some (EBreak None) /\ nth_error es i <> Some (EContinue None)).
 
 Theorem closedb_sound es : closedb es = true -> closed_v2 es.
 Proof.
-  unfold closedb. rewrite !andb_true_iff. intros [[[Hl Hc] Hm] Hs].
+  unfold closedb. rewrite !andb_true_iff. intros [[[[Hl Hc] Hm] Hx] Hs].
   split; [now apply scopes_okb_sound|]. split; [now apply labels_okb_sound|].
-  split; [now apply no_compositeb_sound|now apply merges_okb_sound].
+  split; [now apply no_compositeb_sound|]. split; [now apply merges_okb_sound|].
+  now apply loop_exits_okb_sound.
 Qed.
 
 (* corollary: a reachable end of the flow has no open scope; hence every BeginScope executed on
@@ -341,11 +352,11 @@ Proof.
   - destruct o as [l|].
     + destruct (lbl es l) as [k|] eqn:Hl; [|discriminate]. intros [= <-] [<-|[]].
       eapply S_break; eauto.
-    + intros [= <-] [<-|[]]. eapply S_seq; eauto.
+    + discriminate.
   - destruct o as [l|].
     + destruct (lbl es l) as [k|] eqn:Hl; [|discriminate]. intros [= <-] [<-|[]].
       eapply S_continue; eauto.
-    + intros [= <-] [<-|[]]. eapply S_seq; eauto.
+    + discriminate.
   - destruct (mem n sc) eqn:Hm; [discriminate|]. intros [= <-] [<-|[]]. eapply S_begin; eauto.
   - destruct (mem n sc) eqn:Hm; [|discriminate]. intros [= <-] [<-|[]]. eapply S_end; eauto.
   - destruct ct as [|l ct']; [intros [= <-] []|].
